@@ -40,7 +40,9 @@ RULE = ('case = one configuration (inputs, N, C, trials) with all its job '
         'in total')
 ASSUMPTIONS = ['identical glob order on all nodes']
 REQUIRED_COUNTERS = ['configurations_checked', 'processes_recorded',
-                     'run_parallel_calls']
+                     'run_parallel_calls', 'cluster_sized_allocations',
+                     'input_name_scheme_bias-frac',
+                     'input_name_scheme_dotted']
 EXHAUSTIVE = True
 EXHAUSTIVE_SCOPE = 'coverage.box'
 
@@ -74,6 +76,20 @@ class FakeMP:
 
     def Process(self, target=None, args=(), kwargs=None):
         return FakeProcess(self.launched, target, args, kwargs)
+
+
+NAME_SCHEMES = ['plain', 'bias-int', 'bias-frac', 'dotted']
+
+
+def input_name(scheme, i):
+    """File names as users and `panqec generate-input` produce them."""
+    if scheme == 'plain':
+        return f'in_{i:02d}.json'
+    if scheme == 'bias-int':
+        return f'experiment_bias_{[1, 3, 10, 30, 100, 300, 1000, "inf"][i]}.json'
+    if scheme == 'bias-frac':       # non-integer bias ratios
+        return f'experiment_bias_{[0.25, 0.5, 0.75, 1.5, 2.5, 3.5, 30.5, 0.125][i]}.json'
+    return f'toric.L{4 + 2 * i}.json'
 
 
 def tasks_per_input_max(n_tasks, n_inputs):
@@ -154,9 +170,12 @@ def run_block(task, out):
     try:
         n_inputs = task['inputs']
         os.makedirs(os.path.join(d, 'inputs'))
+        scheme = task.get('names', 'plain')
         for i in range(n_inputs):
-            with open(os.path.join(d, 'inputs', f'in_{i:02d}.json'), 'w') as f:
+            with open(os.path.join(d, 'inputs', input_name(scheme, i)),
+                      'w') as f:
                 f.write('{}')
+        out.count('input_name_scheme_' + scheme)
         for N in task['nodes']:
             for C in task['cores']:
                 n_tasks = N * C
@@ -165,6 +184,8 @@ def run_block(task, out):
                 tmin = tasks_per_input_max(n_tasks, n_inputs)
                 ts = list(range(tmin, max(tmin, task['tmax']) + 1)) + \
                     [t for t in task['extra'] if t >= tmin]
+                if task.get('wide'):
+                    out.count('cluster_sized_allocations')
                 for trials in ts:
                     check_config(out, cli, fake, d, n_inputs, N, C, trials)
     finally:
@@ -234,7 +255,20 @@ def plan(tier, seed):
             tasks.append({'kind': 'block', 'inputs': n_inputs, 'nodes': [N],
                           'cores': list(box['cores']), 'tmax': box['tmax'],
                           'extra': box['extra'],
+                          'names': NAME_SCHEMES[(n_inputs + N) % 4],
                           'cost': len(box['cores']) * box['tmax'] * N})
+    # cluster-sized allocations (beyond the exhaustive box; enumerated list)
+    wide_nodes = [4, 5, 7, 8, 12, 16] if tier == 'quick' else \
+        list(range(4, 21))
+    wide_cores = [8, 12, 14, 16, 24, 32] if tier == 'quick' else \
+        [8, 10, 12, 14, 16, 20, 24, 28, 32, 47, 48, 64]
+    for n_inputs in (1, 2, 3, 4, 6, 8):
+        for N in wide_nodes:
+            tasks.append({'kind': 'block', 'inputs': n_inputs, 'nodes': [N],
+                          'cores': wide_cores, 'tmax': 0,
+                          'extra': [1000, 1003], 'wide': True,
+                          'names': NAME_SCHEMES[(n_inputs + N) % 4],
+                          'cost': len(wide_cores) * 3 * N * 8})
     if tier == 'thorough':
         for trials in (7, 10, 13):
             tasks.append({'kind': 'real', 'trials': trials, 'cost': 4000})
